@@ -112,6 +112,14 @@ def run(ctx, cfg):
             ctx.fail('filter_signal called %d times' % len(store))
         return
     fsig, f = store[0]
+    # the pad length must be computed from the caller's filter length (and band), nothing else
+    if L > 0:
+        fl = [c[1] for c in ctx.env.CUR.calls if c[0] == 'compute_filter_length']
+        want = {'default': (3, None), 'n_cycles': (3, None), 'n_seconds': (None, 0.5)}[fk]
+        ok = len(fl) == 1 and (fl[0]['n_cycles'], fl[0]['n_seconds']) == want and fl[0]['fs'] == 1000.0 \
+            and (fl[0]['f_lo'], fl[0]['f_hi']) == (8.0, 12.0) and fl[0]['pass_type'] == 'bandpass'
+        if not ctx.prove(ok, 'pad length computed from the caller\'s filter length (n_cycles / n_seconds), fs and band'):
+            return
     # precondition of the statement: the narrow-band signal has both kinds of crossings
     rises, decays = halfwaves(ctx, f)
     if not rises or not decays:
